@@ -562,6 +562,94 @@ func dangerous(src string) bool {
 	return strings.Contains(src, "input_filename") || strings.Contains(src, "$__prog") || strings.Contains(src, "modulemeta") || strings.Contains(src, "import ") || strings.Contains(src, "include ")
 }
 
+
+// ---------------------------------------------------------------------------------------------
+// systematic blocks
+
+type patv struct {
+	text string
+	vars []string
+}
+
+// destructuring alternatives: patterns up to depth 2 that BIND some variables before a later component
+// fails, x bodies that show every variable / fail under the first alternative only, x inputs matching
+// each prefix of the patterns
+func altBlock() (progs []string, inputs []any) {
+	pats := []patv{
+		{"$a", []string{"$a"}}, {"[$a]", []string{"$a"}}, {"[$a, $b]", []string{"$a", "$b"}}, {"[$a, [$b]]", []string{"$a", "$b"}},
+		{"[[$a], $b]", []string{"$a", "$b"}}, {"[$a, {b: $b}]", []string{"$a", "$b"}}, {"{a: $a}", []string{"$a"}},
+		{"{a: $a, b: [$b]}", []string{"$a", "$b"}}, {"{$a, b: {c: $b}}", []string{"$a", "$b"}}, {"{a: [$a], $b}", []string{"$a", "$b"}},
+	}
+	union := func(ps ...patv) string {
+		seen := map[string]bool{}
+		var vs []string
+		for _, p := range ps {
+			for _, v := range p.vars {
+				if !seen[v] {
+					seen[v] = true
+					vs = append(vs, v)
+				}
+			}
+		}
+		return "[" + strings.Join(vs, ", ") + "]"
+	}
+	third := patv{"$c", []string{"$c"}}
+	for _, p1 := range pats {
+		for _, p2 := range pats {
+			for _, withThird := range []bool{false, true} {
+				alts := p1.text + " ?// " + p2.text
+				all := union(p1, p2)
+				if withThird {
+					alts += " ?// " + third.text
+					all = union(p1, p2, third)
+				}
+				for _, src := range []string{".", ".[]?"} {
+					progs = append(progs,
+						src+" as "+alts+" | "+all,
+						// fails whenever the first alternative bound $a: rescued by a later alternative or not
+						"["+src+" as "+alts+" | if ($a|type) == \"number\" then error(\"first\") else "+all+" end]",
+						"try ("+src+" as "+alts+" | "+all+", error("+all+")) catch [\"caught\", .]")
+				}
+			}
+		}
+	}
+	inputs = []any{
+		[]any{1, 2}, []any{1, []any{2}}, []any{[]any{1}, 2}, []any{1, map[string]any{"b": 2}}, []any{1}, []any{},
+		map[string]any{"a": 1}, map[string]any{"a": 1, "b": 2}, map[string]any{"a": 1, "b": []any{2}}, map[string]any{"a": []any{1}, "b": 2},
+		map[string]any{"a": 1, "b": map[string]any{"c": 2}}, map[string]any{"a": 1, "b": map[string]any{"c": []any{2}}},
+		1, nil, "s",
+		[]any{[]any{1, 2}, []any{1, []any{2}}, map[string]any{"a": 1, "b": 2}, 3, map[string]any{"a": []any{1}, "b": []any{2}}},
+	}
+	return
+}
+
+// branch joins: a value produced on two control-flow paths that end in different one-instruction forms
+// (load / push / dup), followed by a constant or a variable, consumed with data below the stack top
+func joinBlock() (progs []string, inputs []any) {
+	joins := []string{
+		"if . then 100 else $x end", "if . then $x else 100 end", "if . then $x else $y end", "if . then . else $x end",
+		"(100, $x)", "($x, 100)", "(., $x)", "(. // $x)", "($x // 100)", "(.a? // $x)", "(try error catch $x)", "(.[]? , $x)",
+		"(1 as $z | $x)", "(label $l | $x, break $l)", "(if . then empty else $x end, $y)",
+	}
+	tails := []string{"$y", "1", "\"k\"", ".", "null", "$x", "[]", "{}", "-1"}
+	consumers := []string{
+		"(%s) + 10", "10 + (%s)", "{a: (%s)}", "{a: 1, b: (%s)}", "{((%s) | tostring): 1}", "[%s]", "[%s, 3]", "[3, (%s)]",
+		"(%s) as $w | [$w, .]", "if (%s) then 1 else 2 end", "[.[(%s)]?]", "[limit(2; %s)]", "(%s) | [., 1]",
+		"reduce (%s) as $i (0; . + ($i | numbers))", "[foreach (%s) as $i (0; . + 1; [$i, .])]", "first(%s)", "[(%s) == 1]", "\"s\\(%s)\"",
+		"[(%s), (%s)]", "(%s) // 7", "try (%s) catch 9", "[path(%s)]?", ".a = (%s)", "[(%s) | not]",
+	}
+	for _, j := range joins {
+		for _, t := range tails {
+			shape := j + " | " + t
+			for _, c := range consumers {
+				progs = append(progs, "5 as $x | 2 as $y | "+strings.ReplaceAll(c, "%s", shape))
+			}
+		}
+	}
+	inputs = []any{true, false, nil, map[string]any{"a": 1}, []any{1, 2}, 0}
+	return
+}
+
 // ---------------------------------------------------------------------------------------------
 // the stream
 
@@ -629,6 +717,25 @@ func streamC01(c *Ctx) {
 		ext4 := exhaustive(r.Fork(), c.Tier)[len(exh):]
 		for i, src := range ext4 {
 			runOn(src, "exh4", []any{u12[i%12], u12[(i*5+3)%12], u12[(i*7+8)%12]}, someInputs)
+		}
+	}
+	// (a') systematic blocks: destructuring alternatives and branch joins
+	ap, ai := altBlock()
+	jp, ji := joinBlock()
+	for i, src := range ap {
+		if quick {
+			runOn(src, "alt", []any{ai[i%len(ai)], ai[(i*7+3)%len(ai)]}, someInputs)
+		} else {
+			runOn(src, "alt", ai, someInputs)
+		}
+	}
+	for i, src := range jp {
+		if quick {
+			if i%3 == int(c.Seed%3) {
+				runOn(src, "join", []any{ji[i%len(ji)]}, someInputs)
+			}
+		} else {
+			runOn(src, "join", ji, someInputs)
 		}
 	}
 	// (c) + (d)
